@@ -147,3 +147,18 @@ void h_broadcast(void) { init_any(); VASSUME(PRE_sig()); int r = fiber_cond_broa
   VASSERT(POST_sig(r, 1), "H: broadcast claims all registered waiters and wakes exactly them"); VCANARY("broadcast can return"); }
 void h_wait(void) { init_any(); VASSUME(PRE_wait()); int r = fiber_cond_wait(&CV, &UM);
   VASSERT(POST_wait(r), "H: wait registers under the mutex, parks once, returns with the mutex re-acquired"); VCANARY("wait can return"); }
+/* fiber_mutex_init by its contract (proved in C03's init group): free mutex with an empty queue, or FIBER_ERROR */
+int fiber_mutex_init(fiber_mutex_t* m) {
+  static mpsc_fifo_node_t N; m->counter = 1;
+  if (verif_bool()) { m->waiters.head = 0; m->waiters.tail = 0; return FIBER_ERROR; }
+  N.next = 0; m->waiters.head = &N; m->waiters.tail = &N; return FIBER_SUCCESS;
+}
+/* init: from ANY memory content (a lock placed in recycled memory) the initialiser establishes the state every proof above starts from */
+void h_init(void) {
+  static fiber_cond_t X; memset(&X, (int)verif_u64(), sizeof(X));
+  int r = fiber_cond_init(&X);
+  if (r == FIBER_SUCCESS) VASSERT(X.caller_mutex == 0 && X.waiter_count == 0 && (X.waiters.head != 0 && X.waiters.head == X.waiters.tail && X.waiters.head->next == 0) && X.internal_mutex.counter == 1 && (X.internal_mutex.waiters.head != 0 && X.internal_mutex.waiters.head == X.internal_mutex.waiters.tail && X.internal_mutex.waiters.head->next == 0),
+                                  "H: C05 init: no caller mutex bound, no waiters counted, empty wait queue, free internal mutex, whatever the memory held");
+  else VASSERT(r == FIBER_ERROR, "H: C05 init reports an allocation failure as FIBER_ERROR");
+  VCANARY("init can return");
+}
